@@ -59,7 +59,7 @@ CHECKS.update({
          "structural induction over trees + program refinement in Lean 4; differential correspondence; graft monitor", "7 C11"),
  "C12": ("proof", "Props.C12.ok_implies_complete and unreachable_gives_err (table keys are duplicate-free and reachable from `right`, so an unreachable present vertex makes the table strictly shorter and is named as missed), merge_outcome (the model makes the mapped.len()==g.len() test literally), model_refines. Tie: broken right graphs merged on the real code; monC12 accepts Ok only if every present right vertex is reachable and compares the ids named after 'missed:'.",
          "cardinality argument over the mapping table in Lean 4; differential correspondence", "7 C12"),
- "C13": ("proof", "Props.C13: done_is_reachable for every drain order, terminates for every reachable graph (fuel cap+1 never exhausted), slice_exact (present vertices = reachable set under original ids; each kept vertex has exactly the source's edges into kept vertices) for every reachable source graph whose rebuild stays within the limits, rebuild_refines. Tie: slices of cyclic digraphs with rejection tables on the real code vs the model; monC13 checks the statement on the observed slice (kept set, accepted edges present, no foreign edge) and that the source is unchanged.",
+ "C13": ("proof", "Props.C13: done_is_reachable for every drain order, terminates for every reachable graph (fuel cap+1 never exhausted), slice_exact (present vertices = reachable set under original ids; each kept vertex has exactly the source's edges into kept vertices) for every reachable source graph whose rebuild stays within the limits, slice_small (the property's own quantifier: when at most 14 ids are kept every call of the rebuild is within the limits — Sodg.valid_rebuild —, so slice_some does not panic and the result is exact, with no validity hypothesis), rebuild_refines. Tie: slices of cyclic digraphs with rejection tables on the real code vs the model; monC13 checks the statement on the observed slice (kept set, accepted edges present, no foreign edge) and that the source is unchanged.",
          "work-list invariant, termination measure and rebuild refinement in Lean 4; differential correspondence", "7 C13"),
 })
 
